@@ -3,7 +3,8 @@
  *
  *   c09_enum <mode> <bound> <shard> <nshards>
  *
- * modes (every string is run under 6 settings: {plain, fitting c=4, counting c=4} x {default, all-STRICT}):
+ * modes (every string is run under 7 settings: {plain, fitting c=4, counting c=4} x {default, all-STRICT}, and fitting c=32 at
+ * the last legal offset of a 41-byte heap buffer):
  *   bytes   all strings of length <= 2 over bytes 1..255 and of length 3 over a 64-symbol subset      (bound ignored)
  *   struct  all strings of length <= bound over the structural alphabet  a x r 0 1 9 SP , [ ] + - * ; : LF TAB 0x80
  *   tokens  all token sequences of depth <= bound over ~27 tokens
@@ -190,6 +191,22 @@ static void run_one(const char *text) {
       r = asm_assemble_str(al, text);
     if (r != 0 && r != 1) _exit(8); /* EXIT_SUCCESS or EXIT_FAILURE only */
     asm_destroy_instance(al);
+    sh->execs++;
+  }
+  /* seventh setting: a heap buffer of exactly 41 bytes (ASan red zone right behind it), writing from offset 21 - the last
+   * position the 20-byte reserve allows - with chunk size 32, so that padding plus instruction would pass the end */
+  {
+    sh->setting = 6;
+    uint8_t *small = malloc(41);
+    if (!small) _exit(7);
+    assemblyline_t al = asm_create_instance(small, 41);
+    if (!al) _exit(7);
+    asm_set_chunk_size(al, 32);
+    asm_set_offset(al, 21);
+    int r = asm_assemble_str(al, text);
+    if (r != 0 && r != 1) _exit(8);
+    asm_destroy_instance(al);
+    free(small);
     sh->execs++;
   }
 }
